@@ -312,10 +312,10 @@ class Run:
         elif prof == "batch":
             ops = ["exec_mut"] * 8 + ["exec"] * 2 + ["db_add", "db_user_add", "login", "backup", "restore", "rollback", "clear"]
         else:  # names
-            ops = ["db_add"] * 6 + ["copy"] * 3 + ["rename"] * 3 + ["backup", "restore", "rollback", "clear", "db_delete", "db_remove",
-                                                                     "exec_mut", "exec_mut", "convert", "optimize", "login"]
+            ops = ["db_add"] * 6 + ["copy"] * 4 + ["rename"] * 6 + ["backup", "restore", "rollback", "clear", "db_delete", "db_remove",
+                                                                     "exec_mut", "exec_mut", "exec_mut", "exec_mut", "convert", "optimize", "login"]
         op = r.choice(ops)
-        admin_api = prof in ("auth", "names") and r.random() < (0.2 if prof == "auth" else 0.3) and op.startswith(("db_", "exec", "optimize", "audit", "backup", "restore", "rollback",
+        admin_api = prof in ("auth", "names") and r.random() < (0.2 if prof == "auth" else (0.5 if op in ("copy", "rename") else 0.2)) and op.startswith(("db_", "exec", "optimize", "audit", "backup", "restore", "rollback",
                                                                            "clear", "convert", "copy", "rename")) and op != "db_list"
         owner = r.choice(USERS)
         db = r.choice(self.names)
